@@ -245,6 +245,31 @@ def clause_marker_last(prog, rep):
     rep.floor("marker-last", "processed-record writes on the receive path", n, 5)
 
 
+def clause_multi_write_bracketed(prog, rep, sites):
+    """every SQLite storage method that issues two or more write statements opens a transaction or savepoint: a sequence of auto-committed
+    writes inside one storage operation is what a crash (or a failing second statement) tears apart.  (The three methods named by the
+    property are decided statement by statement below; this clause keeps a method added later from escaping them.)"""
+    n = 0
+    for f in prog.nontest_fns(("mdk_sqlite_storage",)):
+        if f.is_closure():
+            continue
+        ext = set(prog.extent(f))
+        ss = [s_ for s_ in sites if s_.fn.path in ext]
+        wr = sorted(set((s_.stmt.kind, s_.stmt.table) for s_ in ss if s_.stmt.kind in ("INSERT", "UPDATE", "DELETE")))
+        nwr = len([s_ for s_ in ss if s_.stmt.kind in ("INSERT", "UPDATE", "DELETE")])
+        if nwr < 2:
+            continue
+        n += 1
+        raii = any(c.name in ("transaction", "unchecked_transaction", "savepoint", "transaction_with_behavior") and "rusqlite" in (c.krate or "")
+                   for q in ext if q in prog.fns for c in prog.fns[q].live_calls())
+        br = any(s_.stmt.kind in ("BEGIN", "SAVEPOINT") for s_ in ss) or raii
+        rep.check(br, "sql-bracket", "%s/multi-write-bracketed" % f.label(),
+                  "the %d write statements of this method run inside a transaction / savepoint" % nwr,
+                  "%s issues %d auto-committed write statements (%s) with no transaction or savepoint around them: a crash or a failing later "
+                  "statement leaves the earlier ones applied" % (f.label(), nwr, wr[:5]), f.loc())
+    rep.floor("sql-bracket", "SQLite methods issuing two or more write statements", n, 3)
+
+
 def run(ctx, rep):
     prog = ctx.prog()
     sites = sqlmod.collect(prog)
@@ -257,6 +282,7 @@ def run(ctx, rep):
                        "accept_welcome (these API calls are sequences of auto-committed statements — visible in the code, but what state "
                        "OpenMLS can still load after each prefix is a runtime question no sound static argument here can bound)")
     clause_marker_last(prog, rep)
+    clause_multi_write_bracketed(prog, rep, sites)
     ms = {
         "create_group_snapshot": prog.find(adt="MdkSqliteStorage", name="create_group_snapshot", trait="MdkStorageProvider"),
         "rollback_group_to_snapshot": prog.find(adt="MdkSqliteStorage", name="rollback_group_to_snapshot", trait="MdkStorageProvider"),
